@@ -403,6 +403,11 @@ static void script_vnadata_npd(Script &S) {
     S.add("vnadata_fload", true, [](World &w) { return do_fload(w, 1, w.text[1], "y.npd"); }, OBS_VD(1));
     S.add("vnadata_fload", true, [](World &w) { return do_fload(w, 1, w.text[0], "x.npd"); }, OBS_VD(1));
     S.add("vnadata_fsave", true, [](World &w) { return do_fsave(w, 1, 2, "z.npd"); }, [](World &w) { w.obs("npd text:\n%s", w.text[2].c_str()); });
+    // per-frequency reference impedances through NPD
+    S.add("vnadata_set_fz0", true, [](World &w) { RET_INT0(w, vnadata_set_fz0(w.vd[0], 1, 0, mkc(60, 5))); });
+    S.add("vnadata_set_format", true, [](World &w) { RET_INT0(w, vnadata_set_format(w.vd[0], "ma")); }, OBS_VD(0));
+    S.add("vnadata_fsave", true, [](World &w) { return do_fsave(w, 0, 3, "f.npd"); }, [](World &w) { w.obs("npd text:\n%s", w.text[3].c_str()); dump_vd(w, "vd0", w.vd[0]); });
+    S.add("vnadata_fload", true, [](World &w) { return do_fload(w, 1, w.text[3], "f.npd"); }, OBS_VD(1));
     FREE_VD(1);
     FREE_VD(0);
 }
@@ -423,6 +428,10 @@ static void script_vnadata_ts1(Script &S) {
     S.add("vnadata_fload", true, [](World &w) { return do_fload(w, 1, w.text[1], "z.s2p"); }, OBS_VD(1));
     S.add("vnadata_fload", true, [](World &w) { return do_fload(w, 1, w.text[0], "x.s2p"); }, OBS_VD(1));
     S.add("vnadata_fsave", true, [](World &w) { return do_fsave(w, 1, 2, "w.s2p"); }, [](World &w) { w.obs("s2p text:\n%s", w.text[2].c_str()); });
+    // hand-written one-port file with a token longer than the scanner's initial text buffer
+    S.add("vnadata_fload", true, [](World &w) {
+        static const std::string t = "! long token\n# HZ S RI R 50\n1000000000.0000000000000000000000000000000000000000000000000000000000000000000000000000 0.5 -0.25\n2e9 0.25 0.125\n";
+        return do_fload(w, 1, t, "l.s1p"); }, OBS_VD(1));
     FREE_VD(1);
     FREE_VD(0);
 }
@@ -449,6 +458,328 @@ static void script_vnadata_ts2(Script &S) {
     FREE_VD(0);
 }
 
+// ---- property tree helpers: the vnaproperty_* functions are silent (no error callback)
+#define PSET(i, ...)  S.add("vnaproperty_set", false, [](World &w) { RET_INT0(w, vnaproperty_set(&w.prop[i], __VA_ARGS__)); }, OBS_PROP(i))
+#define PDEL(i, ...)  S.add("vnaproperty_delete", false, [](World &w) { RET_INT0(w, vnaproperty_delete(&w.prop[i], __VA_ARGS__)); }, OBS_PROP(i))
+
+// --- S6: property tree: set (maps, lists, insert, append, null, replace), queries, set_subtree, delete, copy, quote_key
+static void script_vnaproperty_basic(Script &S) {
+    S.name = "vnaproperty_basic";
+    PSET(0, "VNA_Model=ACME 1050");
+    PSET(0, "VNA_ports=%d", 2);
+    PSET(0, "foo.bar=xyz");
+    PSET(0, "foo.baz.deep.deeper=%s", "value with spaces");
+    PSET(0, "matrix[0][0]=1");
+    PSET(0, "matrix[0][1]=2");
+    PSET(0, "matrix[1][0]=3");
+    PSET(0, "matrix[1][1]=4");
+    PSET(0, "names[+]=alice");
+    PSET(0, "names[+]=bob");
+    PSET(0, "names[0+]=zero");
+    PSET(0, "names[5]=sparse");
+    PSET(0, "nothing#");
+    PSET(0, "my\\.key with\\[odd\\] chars=1");
+    PSET(0, "refl[0].name=short");
+    PSET(0, "refl[0].gamma=-1.0");
+    PSET(0, "refl[1].name=open");
+    PSET(0, "foo=replaced map by scalar");
+    PSET(0, "names.now_a_map=1");
+    for (int i = 0; i < 7; i++)   // grow one map and one list past their initial allocations
+        S.add("vnaproperty_set", false, [i](World &w) { RET_INT0(w, vnaproperty_set(&w.prop[0], "grow.k%d=v%d", i, i)); }, OBS_PROP(0));
+    for (int i = 0; i < 7; i++)
+        S.add("vnaproperty_set", false, [i](World &w) { RET_INT0(w, vnaproperty_set(&w.prop[0], "glist[+]=%d", i)); }, OBS_PROP(0));
+    // queries (they allocate too: the descriptor is formatted with vasprintf)
+    S.add("vnaproperty_type", false, [](World &w) { int t = 0; errno = 0; long rc = vnaproperty_type(w.prop[0], "matrix[1]"); w.err = errno; w.rc = rc; w.rc_bad = !(rc == -1 || rc == 'l'); (void)t; return rc == -1; }, [](World &w) { w.obs("type=%ld", w.rc); });
+    S.add("vnaproperty_count", false, [](World &w) { int n = 0; RET_INTN(w, vnaproperty_count(w.prop[0], "grow"), n); (void)n; }, [](World &w) { w.obs("count=%ld", w.rc); });
+    S.add("vnaproperty_get", false, [](World &w) { errno = 0; const char *v = vnaproperty_get(w.prop[0], "refl[%d].gamma", 0); w.err = errno; w.rc_bad = false; if (!v) return true; w.text[0] = v; return false; }, [](World &w) { w.obs("get=%s", w.text[0].c_str()); });
+    S.add("vnaproperty_keys", false, [](World &w) {
+        errno = 0; const char **k = vnaproperty_keys(w.prop[0], "grow{}"); w.err = errno; w.rc_bad = false;
+        if (!k) return true;
+        w.text[1].clear(); for (int i = 0; k[i]; i++) { w.text[1] += k[i]; w.text[1] += ","; }
+        free((void *)k); return false; }, [](World &w) { w.obs("keys=%s", w.text[1].c_str()); });
+    S.add("vnaproperty_get_subtree", false, [](World &w) {
+        errno = 0; vnaproperty_t *sub = vnaproperty_get_subtree(w.prop[0], "refl[0]"); w.err = errno; w.rc_bad = false;
+        if (!sub) return true;
+        verif_fi_pause(); const char *v = vnaproperty_get(sub, "name"); w.text[2] = v ? v : "(null)"; verif_fi_resume();
+        return false; }, [](World &w) { w.obs("subtree.name=%s", w.text[2].c_str()); });
+    S.add("vnaproperty_set_subtree", false, [](World &w) {
+        errno = 0; vnaproperty_t **sub = vnaproperty_set_subtree(&w.prop[0], "sub.tree[2]"); w.err = errno; w.rc_bad = false;
+        return sub == nullptr; }, OBS_PROP(0));
+    S.add("vnaproperty_set_subtree", false, [](World &w) {
+        errno = 0; vnaproperty_t **sub = vnaproperty_set_subtree(&w.prop[0], "sub.tree[2]{}"); w.err = errno; w.rc_bad = false;
+        return sub == nullptr; }, OBS_PROP(0));
+    S.add("vnaproperty_copy", false, [](World &w) { RET_INT0(w, vnaproperty_copy(&w.prop[1], w.prop[0])); }, OBS_PROP(1));
+    PSET(1, "only_in_copy=1");
+    S.add("vnaproperty_copy", false, [](World &w) { RET_INT0(w, vnaproperty_copy(&w.prop[1], w.prop[0])); }, OBS_PROP(1));   // replaces existing content
+    PDEL(0, "matrix[0]");
+    PDEL(0, "refl[1].");
+    PDEL(0, "grow.k3");
+    PDEL(0, "names");
+    S.add("vnaproperty_quote_key", false, [](World &w) { RET_PTR(w, vnaproperty_quote_key("my.key with[odd] {chars}\\"), w.str[0]); }, [](World &w) { w.obs("quoted=%s", w.str[0]); });
+    S.add("vnaproperty_get", false, [](World &w) { errno = 0; const char *v = vnaproperty_get(w.prop[1], "%s", "my\\.key with\\[odd\\] chars"); w.err = errno; w.rc_bad = false; if (!v) return true; w.text[0] = v; return false; }, [](World &w) { w.obs("get=%s", w.text[0].c_str()); });
+    PSET(0, ".=root becomes a scalar");
+    PDEL(0, ".");
+    PDEL(1, ".");
+}
+
+// --- S7: YAML export and import of property trees
+static bool do_export(World &w, int pi, int slot) {
+    char *buf = nullptr; size_t len = 0;
+    FILE *fp = open_memstream(&buf, &len);
+    if (!fp) { w.err = errno; w.rc = -1; w.rc_bad = false; return true; }
+    errno = 0;
+    long rc = vnaproperty_export_yaml_to_file(w.prop[pi], fp, "out.yaml", errlog_fn, &w.log);
+    int e = errno;
+    fclose(fp);
+    w.err = e; w.rc = rc; w.rc_bad = !(rc == 0 || rc == -1);
+    if (rc == 0) w.text[slot].assign(buf, len);
+    free(buf);
+    return rc == -1;
+}
+static const char YAML_DOC[] =
+    "# comment\n"
+    "model: ACME 1050\n"
+    "ports: 2\n"
+    "empty: ~\n"
+    "nested:\n"
+    "  list: [1, 2.5, three, [a, b], {k: v}]\n"
+    "  map: {x: 1, y: {z: deep}}\n"
+    "  text: |\n"
+    "    multi\n"
+    "    line\n"
+    "anchors:\n"
+    "  - &A shared\n"
+    "  - *A\n"
+    "\"quoted key.with dots\": 'single quoted'\n"
+    "? [complex, key]\n"
+    ": skipped with a warning\n"
+    "last: end\n";
+static void script_vnaproperty_yaml(Script &S) {
+    S.name = "vnaproperty_yaml";
+    // vnaproperty(3) promises the callback only for "errors found in the input document": a SYSTEM
+    // callback on ENOMEM is not required of the import/export functions (reports = false)
+    S.add("vnaproperty_import_yaml_from_string", false, [](World &w) { RET_INT0(w, vnaproperty_import_yaml_from_string(&w.prop[0], YAML_DOC, errlog_fn, &w.log)); }, OBS_PROP(0));
+    S.add("vnaproperty_export_yaml_to_file", false, [](World &w) { return do_export(w, 0, 0); }, [](World &w) { w.obs("yaml:\n%s", w.text[0].c_str()); });
+    S.add("vnaproperty_import_yaml_from_file", false, [](World &w) {
+        FILE *fp = fmemopen((void *)w.text[0].data(), w.text[0].size(), "r");
+        if (!fp) { w.err = errno; w.rc = -1; w.rc_bad = false; return true; }
+        errno = 0; long rc = vnaproperty_import_yaml_from_file(&w.prop[1], fp, "in.yaml", errlog_fn, &w.log); int e = errno;
+        fclose(fp); w.err = e; w.rc = rc; w.rc_bad = !(rc == 0 || rc == -1); return rc == -1; }, OBS_PROP(1));
+    PSET(1, "added.after[+]=import");
+    S.add("vnaproperty_import_yaml_from_string", false, [](World &w) { RET_INT0(w, vnaproperty_import_yaml_from_string(&w.prop[1], "[1, {a: b}, ~, \"s\"]\n", errlog_fn, &w.log)); }, OBS_PROP(1));   // replaces content
+    S.add("vnaproperty_export_yaml_to_file", false, [](World &w) { return do_export(w, 1, 1); }, [](World &w) { w.obs("yaml:\n%s", w.text[1].c_str()); });
+    S.add("vnaproperty_import_yaml_from_string", false, [](World &w) { RET_INT0(w, vnaproperty_import_yaml_from_string(&w.prop[2], "just a scalar\n", errlog_fn, &w.log)); }, OBS_PROP(2));
+    S.add("vnaproperty_export_yaml_to_file", false, [](World &w) { return do_export(w, 2, 2); }, [](World &w) { w.obs("yaml:\n%s", w.text[2].c_str()); });
+    PDEL(2, ".");
+    PDEL(1, ".");
+    PDEL(0, ".");
+}
+
+// ---- vnacal helpers: vnacal_create / parameters / vnacal_new_* report through the error callback
+#define VC_CREATE(i) S.add("vnacal_create", true, [](World &w) { RET_PTR(w, vnacal_create(errlog_fn, &w.log), w.vc[i]); })
+// vnacal_free also releases every vnacal_new_t made from the container (vnacal_new(3))
+#define VC_FREE(i) S.add("vnacal_free", false, [](World &w) { vnacal_free(w.vc[i]); w.vc[i] = nullptr; if (i == 0) for (auto &p : w.vn) p = nullptr; w.err = 0; w.rc_bad = false; return false; }, nullptr, false)
+#define VN_FREE(i) S.add("vnacal_new_free", false, [](World &w) { vnacal_new_free(w.vn[i]); w.vn[i] = nullptr; w.err = 0; w.rc_bad = false; return false; }, nullptr, false)
+#define PAR_SCALAR(slot, re, im) S.add("vnacal_make_scalar_parameter", true, [](World &w) { RET_INTN(w, vnacal_make_scalar_parameter(w.vc[0], mkc(re, im)), w.par[slot]); })
+#define PAR_UNKNOWN(slot, other) S.add("vnacal_make_unknown_parameter", true, [](World &w) { RET_INTN(w, vnacal_make_unknown_parameter(w.vc[0], other), w.par[slot]); })
+#define PAR_DELETE(slot) S.add("vnacal_delete_parameter", true, [](World &w) { RET_INT0(w, vnacal_delete_parameter(w.vc[0], w.par[slot])); })
+
+static cvec gamma_vec(int F, double mag, double phase0, double dphase) {
+    cvec v((size_t)F);
+    for (int i = 0; i < F; i++) v[(size_t)i] = cx(std::polar(mag, phase0 + dphase * i));
+    return v;
+}
+static void obs_par(World &w, int slot, double f) {
+    dcx z = vnacal_get_parameter_value(w.vc[0], w.par[slot], f);
+    w.obs("par[%d](%g)=%a%+ai", slot, f, re_(z), im_(z));
+}
+
+// --- S8: parameter table: every kind of parameter, >= 5 of each so that the table crosses its
+//     3 -> 8 -> 16 -> 32 growth and the "exactly one free slot" state, holes from deletions
+static void script_vnacal_parameters(Script &S) {
+    S.name = "vnacal_parameters";
+    VC_CREATE(0);
+    static const dvec sf2 = {0.5e9, 4.5e9};
+    static const dvec sig2 = {0.01, 0.02};
+    static const dvec sig4 = {0.01, 0.02, 0.015, 0.01};
+    static const dvec sig1 = {0.05};
+    // 5 scalars: handles 3..7 (the 5th one fills the last slot of the 8-entry table)
+    for (int i = 0; i < 5; i++)
+        S.add("vnacal_make_scalar_parameter", true, [i](World &w) { RET_INTN(w, vnacal_make_scalar_parameter(w.vc[0], mkc(0.1 * i, -0.05 * i)), w.par[i]); }, [i](World &w) { obs_par(w, i, 1e9); });
+    // 5 vectors (table grows to 16)
+    for (int i = 0; i < 5; i++)
+        S.add("vnacal_make_vector_parameter", true, [i](World &w) { cvec g = gamma_vec(4, 0.9 - 0.1 * i, 0.1 * i, 0.3); RET_INTN(w, vnacal_make_vector_parameter(w.vc[0], FREQ4.data(), 4, g.data()), w.par[5 + i]); }, [i](World &w) { obs_par(w, 5 + i, 2.5e9); });
+    // 5 unknowns with scalar, predefined and vector guesses
+    for (int i = 0; i < 5; i++)
+        S.add("vnacal_make_unknown_parameter", true, [i](World &w) { int other = i == 0 ? VNACAL_SHORT : i < 3 ? w.par[i] : w.par[5 + i]; RET_INTN(w, vnacal_make_unknown_parameter(w.vc[0], other), w.par[10 + i]); });
+    // 6 correlated parameters: one sigma; own sigma grid; NULL grid taken from a vector guess; correlated with an unknown
+    S.add("vnacal_make_correlated_parameter", true, [](World &w) { RET_INTN(w, vnacal_make_correlated_parameter(w.vc[0], w.par[0], nullptr, 1, sig1.data()), w.par[15]); });
+    S.add("vnacal_make_correlated_parameter", true, [](World &w) { RET_INTN(w, vnacal_make_correlated_parameter(w.vc[0], w.par[1], sf2.data(), 2, sig2.data()), w.par[16]); });
+    S.add("vnacal_make_correlated_parameter", true, [](World &w) { RET_INTN(w, vnacal_make_correlated_parameter(w.vc[0], w.par[5], nullptr, 4, sig4.data()), w.par[17]); });
+    S.add("vnacal_make_correlated_parameter", true, [](World &w) { RET_INTN(w, vnacal_make_correlated_parameter(w.vc[0], w.par[6], FREQ4.data(), 4, sig4.data()), w.par[18]); });
+    S.add("vnacal_make_correlated_parameter", true, [](World &w) { RET_INTN(w, vnacal_make_correlated_parameter(w.vc[0], w.par[10], sf2.data(), 2, sig2.data()), w.par[19]); });
+    S.add("vnacal_make_correlated_parameter", true, [](World &w) { RET_INTN(w, vnacal_make_correlated_parameter(w.vc[0], w.par[13], FREQ4.data(), 4, sig4.data()), w.par[20]); });
+    // (a NULL sigma grid with an UNKNOWN "other" whose guess is a vector is not used: the tree double-frees the
+    //  shared frequency vector at teardown without any fault -- a C03 finding, outside this property)
+    // holes: delete some (referenced ones stay alive internally), then allocate into the holes
+    PAR_DELETE(2);
+    PAR_DELETE(7);
+    PAR_DELETE(0);       // still referenced by par[15]
+    PAR_DELETE(16);
+    S.add("vnacal_make_scalar_parameter", true, [](World &w) { RET_INTN(w, vnacal_make_scalar_parameter(w.vc[0], mkc(0.7, 0.1)), w.par[21]); }, [](World &w) { obs_par(w, 21, 1e9); });
+    S.add("vnacal_make_vector_parameter", true, [](World &w) { cvec g = gamma_vec(3, 0.5, 0.0, 0.2); RET_INTN(w, vnacal_make_vector_parameter(w.vc[0], FREQ3.data(), 3, g.data()), w.par[22]); }, [](World &w) { obs_par(w, 22, 1.5e9); });
+    S.add("vnacal_make_unknown_parameter", true, [](World &w) { RET_INTN(w, vnacal_make_unknown_parameter(w.vc[0], w.par[22]), w.par[23]); });
+    S.add("vnacal_make_correlated_parameter", true, [](World &w) { RET_INTN(w, vnacal_make_correlated_parameter(w.vc[0], w.par[23], nullptr, 1, sig1.data()), w.par[24]); });
+    // fill the table up to its next boundary (32)
+    for (int i = 0; i < 8; i++)
+        S.add("vnacal_make_scalar_parameter", true, [i](World &w) { RET_INTN(w, vnacal_make_scalar_parameter(w.vc[0], mkc(0.01 * i, 0.3)), w.par[25 + (i % 7)]); });
+    S.add("vnacal_get_parameter_value", true, [](World &w) { errno = 0; dcx z = vnacal_get_parameter_value(w.vc[0], w.par[8], 3.5e9); w.err = errno; w.rc_bad = false; if (re_(z) == HUGE_VAL) return true; w.text[0] = std::to_string(re_(z)) + "," + std::to_string(im_(z)); return false; }, [](World &w) { w.obs("value=%s", w.text[0].c_str()); });
+    PAR_DELETE(24);
+    PAR_DELETE(23);
+    PAR_DELETE(22);
+    VC_FREE(0);
+}
+
+// ---- vnacal_new helpers
+#define VN_ALLOC(i, type, rows, cols, F) S.add("vnacal_new_alloc", true, [](World &w) { RET_PTR(w, vnacal_new_alloc(w.vc[0], type, rows, cols, F), w.vn[i]); })
+#define VN_SETF(i, fv) S.add("vnacal_new_set_frequency_vector", true, [](World &w) { RET_INT0(w, vnacal_new_set_frequency_vector(w.vn[i], (fv).data())); })
+#define VN_SOLVE(i) S.add("vnacal_new_solve", true, [](World &w) { RET_INT0(w, vnacal_new_solve(w.vn[i])); })
+#define VC_ADDCAL(vni, cislot, name) S.add("vnacal_add_calibration", true, [](World &w) { RET_INTN(w, vnacal_add_calibration(w.vc[0], name, w.vn[vni]), w.ci[cislot]); }, OBS_VC(0))
+#define VC_SAVE(i) S.add("vnacal_save", true, [](World &w) { RET_INT0(w, vnacal_save(w.vc[i], w.tmp[3].c_str())); }, [](World &w) { w.digest += slurp_file(w.tmp[3]); dump_vc(w, "vc", w.vc[i]); })
+#define VC_LOAD(i) S.add("vnacal_load", true, [](World &w) { RET_PTR(w, vnacal_load(w.tmp[3].c_str(), errlog_fn, &w.log), w.vc[i]); }, OBS_VC(i))
+
+static const cd DUT_S[2][2] = {{cd(0.2, 0.1), cd(0.6, -0.2)}, {cd(0.65, -0.15), cd(-0.1, 0.3)}};
+static Sfun S_dut() { return S_const(DUT_S[0][0], DUT_S[0][1], DUT_S[1][0], DUT_S[1][1]); }
+// frequencies strictly inside the calibration range, off the calibration grid (rational function interpolation)
+static const dvec FREQ_APPLY = {1.25e9, 2.0e9, 2.75e9};
+
+// measurement of the DUT as a 2x2 m matrix for a calibration with `cols` driven ports: for a 2x1
+// calibration the second column is measured with the DUT reversed (vnacal(3))
+static MeasP dut_measure(const Vna2 &vna, int F, int cols) {
+    MeasP mp = measure_m(vna, F, S_dut(), 2, 2);
+    if (cols == 1) {
+        MeasP rev = measure_m(vna, F, S_const(DUT_S[1][1], DUT_S[1][0], DUT_S[0][1], DUT_S[0][0]), 2, 1);
+        for (int f = 0; f < F; f++) { mp->at(1, 1, f) = rev->at(0, 0, f); mp->at(0, 1, f) = rev->at(1, 0, f); }
+    }
+    return mp;
+}
+
+// --- S9: the SOLT example: E12 2x1 from m measurements, add_calibration, calibration properties,
+//     save, load, apply_m
+static void script_vnacal_solt_e12(Script &S) {
+    S.name = "vnacal_solt_e12_2x1";
+    static Vna2 vna; vna.with_leak = true;
+    static MeasP m_short = measure_m(vna, 3, S_const(-1, 0, 0, 0), 2, 1);
+    static MeasP m_open = measure_m(vna, 3, S_const(1, 0, 0, 0), 2, 1);
+    static MeasP m_load = measure_m(vna, 3, S_const(0, 0, 0, 0), 2, 1);
+    static MeasP m_thru = measure_m(vna, 3, S_const(0, 1, 1, 0), 2, 1);
+    static MeasP m_dut = dut_measure(vna, 3, 1);
+    VC_CREATE(0);
+    VN_ALLOC(0, VNACAL_E12, 2, 1, 3);
+    VN_SETF(0, FREQ3);
+    S.add("vnacal_new_set_z0", true, [](World &w) { RET_INT0(w, vnacal_new_set_z0(w.vn[0], mkc(50, 0))); });
+    S.add("vnacal_new_add_single_reflect_m", true, [](World &w) { RET_INT0(w, vnacal_new_add_single_reflect_m(w.vn[0], m_short->ptr(), 2, 1, VNACAL_SHORT, 1)); });
+    S.add("vnacal_new_add_single_reflect_m", true, [](World &w) { RET_INT0(w, vnacal_new_add_single_reflect_m(w.vn[0], m_open->ptr(), 2, 1, VNACAL_OPEN, 1)); });
+    S.add("vnacal_new_add_single_reflect_m", true, [](World &w) { RET_INT0(w, vnacal_new_add_single_reflect_m(w.vn[0], m_load->ptr(), 2, 1, VNACAL_MATCH, 1)); });
+    S.add("vnacal_new_add_through_m", true, [](World &w) { RET_INT0(w, vnacal_new_add_through_m(w.vn[0], m_thru->ptr(), 2, 1, 1, 2)); });
+    VN_SOLVE(0);
+    VC_ADDCAL(0, 0, "cal_2x1");
+    // calibration and global properties (silent functions)
+    S.add("vnacal_property_set", false, [](World &w) { RET_INT0(w, vnacal_property_set(w.vc[0], w.ci[0], "description=XYZ VNA\nwith 2ft cables")); }, OBS_VC(0));
+    S.add("vnacal_property_set", false, [](World &w) { RET_INT0(w, vnacal_property_set(w.vc[0], w.ci[0], "detectorMatrix[%d][%d]=%d", 1, 0, 2)); }, OBS_VC(0));
+    S.add("vnacal_property_set", false, [](World &w) { RET_INT0(w, vnacal_property_set(w.vc[0], -1, "global.value=%d", 5)); }, OBS_VC(0));
+    S.add("vnacal_property_set", false, [](World &w) { RET_INT0(w, vnacal_property_set(w.vc[0], -1, "gone=soon")); }, OBS_VC(0));
+    S.add("vnacal_property_get", false, [](World &w) { errno = 0; const char *v = vnacal_property_get(w.vc[0], w.ci[0], "detectorMatrix[1][0]"); w.err = errno; w.rc_bad = false; if (!v) return true; w.text[0] = v; return false; }, [](World &w) { w.obs("get=%s", w.text[0].c_str()); });
+    S.add("vnacal_property_type", false, [](World &w) { errno = 0; long rc = vnacal_property_type(w.vc[0], w.ci[0], "detectorMatrix"); w.err = errno; w.rc = rc; w.rc_bad = !(rc == -1 || rc == 'l'); return rc == -1; });
+    S.add("vnacal_property_count", false, [](World &w) { int n; RET_INTN(w, vnacal_property_count(w.vc[0], -1, "."), n); (void)n; }, [](World &w) { w.obs("count=%ld", w.rc); });
+    S.add("vnacal_property_keys", false, [](World &w) {
+        errno = 0; const char **k = vnacal_property_keys(w.vc[0], -1, "."); w.err = errno; w.rc_bad = false;
+        if (!k) return true;
+        w.text[1].clear(); for (int i = 0; k[i]; i++) { w.text[1] += k[i]; w.text[1] += ","; }
+        free((void *)k); return false; }, [](World &w) { w.obs("keys=%s", w.text[1].c_str()); });
+    S.add("vnacal_property_get_subtree", false, [](World &w) { errno = 0; vnaproperty_t *t = vnacal_property_get_subtree(w.vc[0], -1, "global"); w.err = errno; w.rc_bad = false; return t == nullptr; });
+    S.add("vnacal_property_set_subtree", false, [](World &w) { errno = 0; vnaproperty_t **t = vnacal_property_set_subtree(w.vc[0], w.ci[0], "switches[1]"); w.err = errno; w.rc_bad = false; return t == nullptr; }, OBS_VC(0));
+    S.add("vnacal_property_delete", false, [](World &w) { RET_INT0(w, vnacal_property_delete(w.vc[0], -1, "gone")); }, OBS_VC(0));
+    S.add("vnacal_set_fprecision", true, [](World &w) { RET_INT0(w, vnacal_set_fprecision(w.vc[0], 9)); });
+    S.add("vnacal_set_dprecision", true, [](World &w) { RET_INT0(w, vnacal_set_dprecision(w.vc[0], 8)); });
+    VC_SAVE(0);
+    VN_FREE(0);
+    VC_FREE(0);
+    VC_LOAD(1);
+    S.add("vnadata_alloc", true, [](World &w) { RET_PTR(w, vnadata_alloc(errlog_fn, &w.log), w.vd[0]); });
+    S.add("vnacal_apply_m", true, [](World &w) { RET_INT0(w, vnacal_apply_m(w.vc[1], 0, FREQ_APPLY.data(), 3, m_dut->ptr(), 2, 2, w.vd[0])); }, OBS_VD(0));
+    FREE_VD(0);
+    VC_FREE(1);
+}
+
+// --- S10: T8 2x2 from a/b measurements through every a,b entry point; simple (linear) solve; apply with a,b
+static void script_vnacal_t8_ab(Script &S) {
+    S.name = "vnacal_t8_2x2_ab";
+    static Vna2 vna;
+    struct AB { MeasP a, b; };
+    auto mk = [](const Sfun &sf) { AB ab; MeasP m = measure_m(vna, 3, sf, 2, 2); make_ab(*m, false, ab.a, ab.b); return ab; };
+    static AB short1 = mk(S_const(-1, 0, 0, 0));
+    static AB so = mk(S_const(-1, 0, 0, 1));
+    static AB thru = mk(S_const(0, 1, 1, 0));
+    static AB line = mk(S_const(0.1, cd(0.5, -0.5), cd(0.5, -0.5), 0.1));
+    static AB mapped = mk(S_const(0.3, 0, 0, cd(0, 0.5)));     // seen from the VNA: port 1 <- 0.3, port 2 <- 0.5i
+    static AB dut = mk(S_dut());
+    VC_CREATE(0);
+    VN_ALLOC(0, VNACAL_T8, 2, 2, 3);
+    VN_SETF(0, FREQ3);
+    PAR_SCALAR(0, 0.1, 0.0);     // line s11 = s22
+    PAR_SCALAR(1, 0.5, -0.5);    // line s12 = s21
+    PAR_SCALAR(2, 0.0, 0.5);     // mapped standard port A
+    PAR_SCALAR(3, 0.3, 0.0);     // mapped standard port B
+    S.add("vnacal_new_add_single_reflect", true, [](World &w) { RET_INT0(w, vnacal_new_add_single_reflect(w.vn[0], short1.a->ptr(), 2, 2, short1.b->ptr(), 2, 2, VNACAL_SHORT, 1)); });
+    S.add("vnacal_new_add_double_reflect", true, [](World &w) { RET_INT0(w, vnacal_new_add_double_reflect(w.vn[0], so.a->ptr(), 2, 2, so.b->ptr(), 2, 2, VNACAL_SHORT, VNACAL_OPEN, 1, 2)); });
+    S.add("vnacal_new_add_through", true, [](World &w) { RET_INT0(w, vnacal_new_add_through(w.vn[0], thru.a->ptr(), 2, 2, thru.b->ptr(), 2, 2, 1, 2)); });
+    S.add("vnacal_new_add_line", true, [](World &w) { int s[4] = {w.par[0], w.par[1], w.par[1], w.par[0]}; RET_INT0(w, vnacal_new_add_line(w.vn[0], line.a->ptr(), 2, 2, line.b->ptr(), 2, 2, s, 1, 2)); });
+    S.add("vnacal_new_add_mapped_matrix", true, [](World &w) { int s[4] = {w.par[2], VNACAL_ZERO, VNACAL_ZERO, w.par[3]}; int map[2] = {2, 1}; RET_INT0(w, vnacal_new_add_mapped_matrix(w.vn[0], mapped.a->ptr(), 2, 2, mapped.b->ptr(), 2, 2, s, 2, 2, map)); });
+    VN_SOLVE(0);
+    VC_ADDCAL(0, 0, "t8");
+    S.add("vnadata_alloc", true, [](World &w) { RET_PTR(w, vnadata_alloc(errlog_fn, &w.log), w.vd[0]); });
+    S.add("vnacal_apply", true, [](World &w) { RET_INT0(w, vnacal_apply(w.vc[0], w.ci[0], FREQ_APPLY.data(), 3, dut.a->ptr(), 2, 2, dut.b->ptr(), 2, 2, w.vd[0])); }, OBS_VD(0));
+    PAR_DELETE(1);
+    FREE_VD(0);
+    VN_FREE(0);
+    VC_FREE(0);
+}
+
+// --- S11: TRL: TE10 2x2, through + unknown reflect + line with unknown transmission: analytic TRL solve
+static void script_vnacal_trl(Script &S) {
+    S.name = "vnacal_trl_te10";
+    static Vna2 vna; vna.with_leak = true;
+    static const cd R_ACTUAL(-0.93, 0.12);
+    static MeasP m_thru = measure_m(vna, 3, S_const(0, 1, 1, 0), 2, 2);
+    static MeasP m_refl = measure_m(vna, 3, S_const(R_ACTUAL, 0, 0, R_ACTUAL), 2, 2);
+    static MeasP m_line = measure_m(vna, 3, [](int f, cd s[2][2]) { cd t = std::polar(0.97, -(0.9 + 0.55 * f)); s[0][0] = 0; s[0][1] = t; s[1][0] = t; s[1][1] = 0; }, 2, 2);
+    static MeasP m_dut = measure_m(vna, 3, S_dut(), 2, 2);
+    VC_CREATE(0);
+    VN_ALLOC(0, VNACAL_TE10, 2, 2, 3);
+    VN_SETF(0, FREQ3);
+    S.add("vnacal_new_add_through_m", true, [](World &w) { RET_INT0(w, vnacal_new_add_through_m(w.vn[0], m_thru->ptr(), 2, 2, 1, 2)); });
+    PAR_UNKNOWN(0, VNACAL_SHORT);
+    S.add("vnacal_new_add_double_reflect_m", true, [](World &w) { RET_INT0(w, vnacal_new_add_double_reflect_m(w.vn[0], m_refl->ptr(), 2, 2, w.par[0], w.par[0], 1, 2)); });
+    S.add("vnacal_make_vector_parameter", true, [](World &w) { cvec g(3); for (int f = 0; f < 3; f++) g[(size_t)f] = cx(std::polar(1.0, -(0.85 + 0.5 * f))); RET_INTN(w, vnacal_make_vector_parameter(w.vc[0], FREQ3.data(), 3, g.data()), w.par[1]); });
+    S.add("vnacal_make_unknown_parameter", true, [](World &w) { RET_INTN(w, vnacal_make_unknown_parameter(w.vc[0], w.par[1]), w.par[2]); });
+    S.add("vnacal_new_add_line_m", true, [](World &w) { int s[4] = {VNACAL_MATCH, w.par[2], w.par[2], VNACAL_MATCH}; RET_INT0(w, vnacal_new_add_line_m(w.vn[0], m_line->ptr(), 2, 2, s, 1, 2)); });
+    S.add("vnacal_new_solve", true, [](World &w) { RET_INT0(w, vnacal_new_solve(w.vn[0])); }, [](World &w) { obs_par(w, 0, 2e9); obs_par(w, 2, 2e9); obs_par(w, 2, 2.5e9); });
+    VC_ADDCAL(0, 0, "cal-TE10");
+    VC_SAVE(0);
+    S.add("vnacal_delete_parameter", true, [](World &w) { RET_INT0(w, vnacal_delete_parameter(w.vc[0], w.par[2])); });
+    S.add("vnacal_delete_parameter", true, [](World &w) { RET_INT0(w, vnacal_delete_parameter(w.vc[0], w.par[1])); });
+    S.add("vnacal_delete_parameter", true, [](World &w) { RET_INT0(w, vnacal_delete_parameter(w.vc[0], w.par[0])); });
+    // a second solve of the same structure (allowed by vnacal_new(3)) and a replacing add_calibration
+    VN_SOLVE(0);
+    VC_ADDCAL(0, 1, "cal-TE10");
+    S.add("vnadata_alloc", true, [](World &w) { RET_PTR(w, vnadata_alloc(errlog_fn, &w.log), w.vd[0]); });
+    S.add("vnacal_apply_m", true, [](World &w) { RET_INT0(w, vnacal_apply_m(w.vc[0], w.ci[1], FREQ3.data(), 3, m_dut->ptr(), 2, 2, w.vd[0])); }, OBS_VD(0));
+    FREE_VD(0);
+    VN_FREE(0);
+    VC_FREE(0);
+}
+
 //@@MORE_SCRIPTS@@
 
 static void build_scripts() {
@@ -456,6 +787,9 @@ static void build_scripts() {
     static const builder all[] = {
         script_vnadata_basic, script_vnadata_convert,
         script_vnadata_npd, script_vnadata_ts1, script_vnadata_ts2,
+        script_vnaproperty_basic, script_vnaproperty_yaml,
+        script_vnacal_parameters,
+        script_vnacal_solt_e12, script_vnacal_t8_ab, script_vnacal_trl,
         //@@MORE_BUILDERS@@
     };
     for (builder b : all) { g_scripts.emplace_back(); b(g_scripts.back()); }
@@ -502,6 +836,10 @@ static void run_script(Ctx &c, Script &S, int fault_step, long k, std::vector<lo
             c.note("  fault delivered at %s (%s); call %s; errno=%d; callbacks: %s", fi->site.c_str(), fi->func.c_str(), failed ? "FAILED" : "succeeded", err, w.log.text().c_str());
             PBT_CHECK(c, fired, "C12.harness_fault_not_delivered", "script %s step %zu (%s): allocation %ld of %ld was never requested", S.name.c_str(), s, st.fn.c_str(), k, S.K[s]);
             PBT_CHECK(c, !w.rc_bad, "C12.undocumented_return_value", "script %s step %zu: %s returned %ld when allocation %ld (%s) failed: neither success nor the documented failure value", S.name.c_str(), s, st.fn.c_str(), w.rc, k, fi->site.c_str());
+            if (!failed) {
+                // vnaerr(3): every category but WARNING describes an error reported "before returning failure"
+                PBT_CHECK(c, w.log.n_nonwarning() == 0, "C12.error_callback_but_success", "script %s step %zu: %s returned success when allocation %ld (%s) failed, yet reported an error through the callback: %s", S.name.c_str(), s, st.fn.c_str(), k, fi->site.c_str(), w.log.text().c_str());
+            }
             if (failed) {
                 if (st.documented) {
                     PBT_CHECK(c, err == ENOMEM, "C12.errno_not_enomem", "script %s step %zu: %s failed when allocation %ld (%s) failed, but errno=%d (%s), expected ENOMEM; callbacks: %s", S.name.c_str(), s, st.fn.c_str(), k, fi->site.c_str(), err, strerror(err), w.log.text().c_str());
@@ -546,7 +884,39 @@ void pbt_global_setup() {
     if (g_scripts.empty()) build_scripts();
 }
 
+// LeakSanitizer scans the stack conservatively: a stale pointer to a block leaked by this case
+// would postpone the report to a later case (and make it unreproducible).  Overwrite the dead
+// stack region used by the case before returning to the engine's leak check.
+__attribute__((noinline)) static void scrub_stack() {
+    volatile char buf[256 * 1024];
+    memset((void *)buf, 0, sizeof buf);
+    __asm__ volatile("" ::: "memory");
+}
+
+extern "C" int __lsan_do_recoverable_leak_check(void) __attribute__((weak));
+extern "C" size_t __sanitizer_get_current_allocated_bytes(void) __attribute__((weak));
+
+static void c12_case(Ctx &c);
 void pbt_property(Ctx &c) {
+    // Leaks are a central part of this oracle, so the harness does its own exact accounting instead of
+    // relying on the engine's coarser trigger (which ignores growth up to the size of the case
+    // description): every byte the heap grew across the case, other than the description itself,
+    // triggers a LeakSanitizer check here.
+    size_t before = __sanitizer_get_current_allocated_bytes ? __sanitizer_get_current_allocated_bytes() : 0;
+    size_t desc_before = c.desc.capacity();
+    {
+        struct Scrub { ~Scrub() { scrub_stack(); } } scrub;   // also when the case throws
+        c12_case(c);
+    }
+    size_t after = __sanitizer_get_current_allocated_bytes ? __sanitizer_get_current_allocated_bytes() : 0;
+    size_t desc_growth = c.desc.capacity() > desc_before ? c.desc.capacity() - desc_before + 1 : 0;
+    if (__lsan_do_recoverable_leak_check && after > before + desc_growth) {
+        if (__lsan_do_recoverable_leak_check() != 0)
+            throw Fail{"lsan.leak", "LeakSanitizer reported a leak after the case (see stderr)"};
+    }
+}
+
+__attribute__((noinline)) static void c12_case(Ctx &c) {
     if (g_scripts.empty()) build_scripts();
     // optional restriction to one script (developer use): C12_SCRIPT=name
     static const char *only = getenv("C12_SCRIPT");
@@ -588,7 +958,7 @@ void pbt_property(Ctx &c) {
     c.label("site:" + fi.site);
     for (auto &m : fi.sysmsgs) c.label("sysmsg:" + m);
     if (fi.failed) { c.label("outcome:failed-clean"); c.label("failed:" + st.fn); c.nontrivial(); }
-    else { c.label("outcome:absorbed"); c.label("absorbed:" + st.fn); }
+    else { c.label("outcome:absorbed"); c.label("absorbed:" + st.fn + "@" + fi.site); }
 }
 
 void pbt_extra_json(FILE *f) {
